@@ -54,6 +54,8 @@ NPQ_KERNELS = [
          branching=True),
     dict(name="SHAGA_update_u", file="optimizers/_shaga.py", cls="SHAGA", func="_update_u", params=[("u", "S1"), ("S", "VQ"), ("df", "VQ")], ret="S1",
          branching=True, ext_scalar_fn={"lehmer_mean": ("lehmerFn", ["x", "weight"])}),
+    # SHAGA._randn: one Cauchy value (function parameter `cauchy loc scale <ordinal>`) clamped to [0, 1]
+    dict(name="SHAGA_randn", file="optimizers/_shaga.py", cls="SHAGA", func="_randn", params=[("u", "S1"), ("scale", "S1")], ret="S1", branching=True, cauchy=True),
     # lehmer_mean (module-level function of optimizers/_shade.py) with power = 2: once as called with weights (SHAGA), once without (SHADE's F);
     # which branch of `if weight is None` is taken is fixed per entry (`none_params`), the other one is not translated
     dict(name="Lehmer_mean_weighted", file="optimizers/_shade.py", cls=None, func="lehmer_mean", params=[("x", "VQ"), ("weight", "VQ")], ret="S1",
@@ -373,6 +375,16 @@ class TrQ:
             if e.id not in self.env:
                 raise NotRecognised(f"unknown name {e.id}")
             return e.id, self.env[e.id]
+        if isinstance(e, ast.Subscript) and is_const(e.slice, 0) and isinstance(e.value, ast.Call) and isinstance(e.value.func, ast.Name) \
+                and e.value.func.id == "cauchy_distribution" and self.cfg.get("cauchy") and not e.value.args:
+            kw = {k.arg: k.value for k in e.value.keywords}
+            if sorted(kw) != ["loc", "scale", "size"] or not is_const(kw["size"], 1):
+                raise NotRecognised("cauchy_distribution arguments")
+            (a, ka), (b, kb) = self.E(kw["loc"]), self.E(kw["scale"])
+            if (ka, kb) != ("S1", "S1"):
+                raise NotRecognised("cauchy_distribution operand kinds")
+            self.draws += 1
+            return f"(cauchy {a} {b} {self.draws - 1})", "S1"
         if isinstance(e, ast.Call) and is_np(e.func, "power") and len(e.args) == 2 and not e.keywords:
             x, k = self.E(e.args[0])
             ex = e.args[1]
@@ -647,7 +659,7 @@ class TrQM(TrQ):
                 x, k = self.E(st.value)
                 v = st.targets[0].id
                 if v in self.declared:
-                    if self.env[v] != k:
+                    if self.env[v] != k and not (self.env[v] == "S1" and k == "S"):
                         raise NotRecognised(f"{v} changes kind")
                     self.lines.append(f"{ind}{v} := {x}")
                 else:
@@ -693,6 +705,8 @@ class TrQM(TrQ):
         self.block(body, "  ")
         lean_k = {"VQ": "List Rat", "S1": "Rat"}
         fnp = [f"({lean} : " + " → ".join(["List Rat"] * len(names)) + " → Rat)" for lean, names in cfg.get("ext_scalar_fn", {}).values()]
+        if cfg.get("cauchy"):
+            fnp.append("(cauchy : Rat → Rat → Nat → Rat)")
         params = fnp + [f"({p} : {lean_k[k_]})" for p, k_ in plist]
         return ("/- GENERATED by harness/extract/np2lean.py from src/thefittest/" + cfg["file"] + f" ({(cfg['cls'] + '.') if cfg['cls'] else ''}{cfg['func']}) — do not edit -/\n"
                 + "import TFV.Model.NpQ\nnamespace TFV.Generated.Src\nopen TFV\n\n"
